@@ -83,6 +83,82 @@ func eiIsSq(v value) (*Sym, bool) {
 	return nil, false
 }
 
+func eiConst(v value) (int64, bool) {
+	switch x := v.(type) {
+	case float32:
+		if float32(int64(x)) == x && x > -1e6 && x < 1e6 {
+			return int64(x), true
+		}
+	case float64:
+		if float64(int64(x)) == x && x > -1e6 && x < 1e6 {
+			return int64(x), true
+		}
+	}
+	return 0, false
+}
+
+func eiFlip(op token.Token) token.Token {
+	switch op {
+	case token.LSS:
+		return token.GTR
+	case token.LEQ:
+		return token.GEQ
+	case token.GTR:
+		return token.LSS
+	case token.GEQ:
+		return token.LEQ
+	}
+	return op
+}
+
+// eiSqVsConst decides Sq(t) op c for an integer-valued t and an integer constant c as a linear
+// comparison of |t| (abs) with floor(sqrt(c)).
+func eiSqVsConst(op token.Token, abs string, c int64, _ func(a, b string) value, mkf func(types.BasicKind, string, string, ...value) *Sym) (value, bool) {
+	switch op {
+	case token.LSS, token.LEQ, token.GTR, token.GEQ, token.EQL, token.NEQ:
+	default:
+		return nil, false
+	}
+	if c < 0 {
+		return op == token.GTR || op == token.GEQ || op == token.NEQ, true
+	}
+	r := int64(0)
+	for (r+1)*(r+1) <= c {
+		r++
+	}
+	perfect := r*r == c
+	lt := func(a, b string) value { return mkf(types.Bool, "ilt", fmt.Sprintf("(< %s %s)", a, b)) }
+	le := func(a, b string) value { return mkf(types.Bool, "ile", fmt.Sprintf("(<= %s %s)", a, b)) }
+	rs, r1 := fmt.Sprintf("%d", r), fmt.Sprintf("%d", r+1)
+	switch op {
+	case token.LSS: // t^2 < c
+		if perfect {
+			return lt(abs, rs), true
+		}
+		return lt(abs, r1), true
+	case token.LEQ: // t^2 <= c  <=> |t| <= r
+		return le(abs, rs), true
+	case token.GTR: // t^2 > c  <=> |t| > r
+		return lt(rs, abs), true
+	case token.GEQ: // t^2 >= c
+		if perfect {
+			return le(rs, abs), true
+		}
+		return le(r1, abs), true
+	case token.EQL:
+		if !perfect {
+			return false, true
+		}
+		return mkf(types.Bool, "ieq", fmt.Sprintf("(= %s %s)", abs, rs)), true
+	case token.NEQ:
+		if !perfect {
+			return true, true
+		}
+		return symNot(mkf(types.Bool, "ieq", fmt.Sprintf("(= %s %s)", abs, rs))), true
+	}
+	return nil, false
+}
+
 func eiAbsText(t string) string { return fmt.Sprintf("(ite (< %s 0) (- %s) %s)", t, t, t) }
 
 func eiBinop(op token.Token, k types.BasicKind, x, y value) (value, bool) {
@@ -152,18 +228,16 @@ func eiBinop(op token.Token, k types.BasicKind, x, y value) (value, bool) {
 		case sqy && op == token.ADD && isZeroF(x):
 			return y, true
 		case sqx:
-			// square against a non-negative integer constant c: |t| ? ceil/floor sqrt — only 0 supported
-			if e, _, _, ok := eiOf(y); ok && e == "0" {
-				switch op {
-				case token.LSS, token.LEQ, token.GTR, token.GEQ, token.EQL, token.NEQ:
-					return withArgs(cmp(eiAbsText(tx.name), "0"), x), true
+			// square against an integer constant c: t*t ? c  <=>  |t| ?' isqrt-bound (exact for integer t)
+			if c, ok := eiConst(y); ok {
+				if r, ok := eiSqVsConst(op, eiAbsText(tx.name), c, cmp, mk); ok {
+					return withArgs(r, x), true
 				}
 			}
 		case sqy:
-			if e, _, _, ok := eiOf(x); ok && e == "0" {
-				switch op {
-				case token.LSS, token.LEQ, token.GTR, token.GEQ, token.EQL, token.NEQ:
-					return withArgs(cmp("0", eiAbsText(ty.name)), y), true
+			if c, ok := eiConst(x); ok {
+				if r, ok := eiSqVsConst(eiFlip(op), eiAbsText(ty.name), c, nil, mk); ok {
+					return withArgs(r, y), true
 				}
 			}
 		}
